@@ -37,6 +37,12 @@ def _unrelated(rng):
     if r < 0.8:
         s, e = domains.draw(rng, 'INTERRUPT')
         return {'k': 'sys', 'name': 'INTERRUPT', 's': s, 'e': e, 'in': []}
+    if rng.chance(0.6):
+        # a record the table names but nothing decodes, from the id neighbourhood of the composites' own nested kinds
+        # (kernel-stack header/data, stack errors, other dyld and vm-fault codes)
+        near = [k for k, _v in cat['undecoded'] if (k >> 16) in (0x2502, 0x2501, 0x2500, 0x1f05, 0x1f07, 0x132, 0x130)]
+        if near:
+            return {'k': 'raw', 'id': rng.pick(near), 'q': rng.pick([0, 0, 3]), 'a': rng.words()}
     eid, _ = rng.pick(cat['undecoded'])
     return {'k': 'raw', 'id': eid, 'q': 0, 'a': rng.words()}
 
